@@ -103,6 +103,18 @@ def check_fmt(ctx, case, produced):
         back = type(obj).from_datetime(pdt)
         if tuple(back) != tuple(obj):
             ctx.violation(f"dateTime: from_datetime(to_datetime(v)) = {back!r} != {obj!r}", {"value": v})
+    if kind == "dateTime" and 1 <= v["y"] <= 9999 and v["h"] < 24 and v["f"] % 1000 != 0:
+        # below microsecond precision the standard library cannot hold the value: the conversion still has to succeed
+        # and to land within one microsecond of the instant (it is not for this check to choose between cutting and rounding)
+        try:
+            pdt = obj.to_datetime()
+            day, sec, ns = case["line"]
+            got = dt.py_instant(pdt)
+            delta = ((got[0] - day) * 86400 + (got[1] - sec)) * 1000000 + (got[2] - ns // 1000)
+            if not 0 <= delta <= 1:
+                ctx.violation(f"dateTime: to_datetime() of {obj!r} is instant {got}, more than a microsecond from the timeline's {(day, sec, ns)}", {"value": v})
+        except Exception as ex:  # noqa: BLE001
+            ctx.violation(f"dateTime: to_datetime() of {obj!r} raised {type(ex).__name__}: {ex}", {"value": v})
     if kind == "time" and v["h"] < 24 and v["f"] % 1000 == 0:
         t = obj.to_time()
         if (t.hour, t.minute, t.second, t.microsecond * 1000) != (v["h"], v["mi"], v["s"], v["f"]) or type(obj).from_time(t) != obj or tuple(type(obj).from_time(t)) != tuple(obj):
